@@ -112,4 +112,34 @@ RunPipeline(files, sets, flag, env) ==
 LaunchKwargs(top) ==
   LET t1 == IF "backend" \in DOMAIN top THEN top ELSE With(top, "backend", [t |-> "s", v |-> "asyncio"])
   IN IF "backend_options" \in DOMAIN t1 THEN t1 ELSE With(t1, "backend_options", D(Empty))
+
+(* ---- component configuration layering (src/asphalt/core/_component.py: add_component, _init_component) ---- *)
+\* classes: class name -> sequence of hard-coded children [alias, type, cfg] (type = NoneV when omitted: defaults to the alias)
+\* names:   string -> [kind, name]: how an alias / type string reads: the class it names and the resource-name suffix
+\*          after "/" ("" when there is none). The concrete "kind/name" syntax is rendered by the driver.
+\* A type is [t |-> "c", v |-> class name] (a class object) or [t |-> "s", v |-> string] (entry point, module:attr, alias).
+ClassOf(names, tv) == IF tv.t = "c" THEN tv.v ELSE names[tv.v].kind
+HardDict(hard) ==
+  [a \in {hard[i].alias : i \in DOMAIN hard} |->
+     LET i == CHOOSE i \in DOMAIN hard : hard[i].alias = a
+     IN D(With(hard[i].cfg, "type", IF hard[i].type.t = "n" THEN [t |-> "s", v |-> a] ELSE hard[i].type))]
+\* the nodes that start_component(cls, cfg) must construct, as a function path -> [path, cls, kwargs, drn]
+\* (drn = default resource name). A function rather than a set: TLC cannot order records whose fields have different shapes.
+RECURSIVE Nodes(_, _, _, _, _, _), KidNodes(_, _, _, _, _)
+KidNodes(classes, names, path, merged, todo) ==
+  IF todo = {} THEN Empty
+  ELSE LET a == CHOOSE a \in todo : TRUE
+           cc == IF IsD(merged[a]) THEN merged[a].v ELSE Empty
+           tv == IF "type" \in DOMAIN cc THEN cc["type"] ELSE [t |-> "s", v |-> a]
+       IN Nodes(classes, names, IF path = "" THEN a ELSE path \o "." \o a, ClassOf(names, tv), Without(cc, "type"),
+                IF names[a].name = "" THEN "default" ELSE names[a].name)
+          @@ KidNodes(classes, names, path, merged, todo \ {a})
+Nodes(classes, names, path, cls, cfg, drn) ==
+  LET ext == IF "components" \in DOMAIN cfg /\ IsD(cfg["components"]) THEN cfg["components"].v ELSE Empty
+      kwargs == Without(cfg, "components")
+      merged == Merge(HardDict(classes[cls]), ext)
+  IN (path :> [path |-> path, cls |-> cls, kwargs |-> kwargs, drn |-> drn]) @@ KidNodes(classes, names, path, merged, DOMAIN merged)
+BuildTree(classes, names, rootcls, cfg) == Nodes(classes, names, "", rootcls, cfg, "default")
+\* names under which a component's additions must appear in the surrounding context
+Published(node) == [prep |-> {"default"}, start |-> {node.drn}, named |-> {"ex"}, fac |-> {node.drn}]
 =============================================================================
